@@ -1,6 +1,7 @@
 package activitypub
 
 import (
+	"bytes"
 	"encoding/json"
 	"fmt"
 	"time"
@@ -65,7 +66,17 @@ func JSONWriteNaturalLanguageProp(b *[]byte, n string, nl NaturalLanguageValues)
 }
 
 func JSONWriteStringProp(b *[]byte, n string, s string) (notEmpty bool) {
-	return JSONWriteProp(b, n, []byte(fmt.Sprintf(`"%s"`, s)))
+	var v []byte
+	jsonWriteEscapedString(&v, s)
+	return JSONWriteProp(b, n, v)
+}
+
+// jsonWriteEscapedString appends s as a JSON string, escaping quotes, backslashes, control
+// characters and invalid UTF-8, so that whatever s holds it cannot end the string early.
+func jsonWriteEscapedString(b *[]byte, s string) {
+	buf := bytes.Buffer{}
+	stringBytes(&buf, []byte(s), false)
+	JSONWrite(b, buf.Bytes()...)
 }
 
 func JSONWriteBoolProp(b *[]byte, n string, t bool) (notEmpty bool) {
